@@ -311,7 +311,9 @@ LawArgs(c, k) ==
       [] c \in {"MassActionEq", "EqEquation"} -> <<"K">>
       [] c = "GibbsEqConst" -> <<"dH_over_R", "dS_over_R">>
       [] c \in {"ArrheniusParam", "ArrheniusAsRate"} -> <<"A", "Ea">>
-      [] c \in {"EyringParam", "EyringAsRate"} -> <<"dH", "dS">>
+      [] c = "EyringParam" -> <<"dH", "dS">>
+      \* ordered like the arguments of the generated Eyring expression they feed: kB/h*exp(dS/R), dH/R
+      [] c = "EyringAsRate" -> <<"dS", "dH">>
       [] c = "ArrheniusFromK" -> <<"Ea", "T0", "k0">>
       [] c = "FitArrhenius" -> <<"A", "B">>
       [] c = "FitEyring"    -> <<"a", "B">>
@@ -351,11 +353,13 @@ ScaleNum(x, f) == <<x[1] * f[1], x[2] * f[2], x[3]>>
 (* it again, evaluating it through Reaction.rate, or evaluating ANOTHER expression (a companion  *)
 (* reaction X + Y -> Q with a plain mass-action constant) in between, all with the SAME mapping, *)
 (* must give the same numbers, and the mapping must come back unchanged (frame condition).       *)
-StepKinds == {"self", "rate", "companion"}
-FullHistories == {<<"self">>, <<"self", "self">>, <<"rate", "rate">>, <<"companion", "self">>,
-                  <<"self", "companion", "rate">>}
-HistoriesOf(c, p) ==
-    IF c \in {"FitArrhenius", "FitEyring", "LeastSquares"} THEN {<<"self">>}
+StepKinds == {"self", "rate", "companion", "update"}
+FullHistories == {<<"self">>, <<"self", "self">>, <<"companion", "self">>, <<"self", "companion", "rate">>,
+                  <<"rate", "companion", "rate">>}
+HistoriesOfForm(c, p, tf) ==
+    IF tf = "expr" THEN {<<"self", "update", "self">>} \cup
+                        (IF c \in RateClasses THEN {<<"rate", "update", "rate">>, <<"self", "update", "rate">>} ELSE {})
+    ELSE IF c \in {"FitArrhenius", "FitEyring", "LeastSquares"} THEN {<<"self">>}
     ELSE IF c \in RateClasses /\ p \in {"none", "all"} THEN FullHistories
     ELSE {<<"self">>, <<"self", "self">>}
 IsPrefix(a, b) == Len(a) <= Len(b) /\ \A i \in 1..Len(a) : a[i] = b[i]
@@ -424,7 +428,7 @@ LawTerms(c, a, x, k) ==
       [] c = "ArrheniusAsRate" -> <<TMul3(a["A"], TExp(TNeg(TDiv(a["Ea"], TMul(RGas, x["T"])))), ConcProd(k, x))>>
       [] c = "EyringParam" -> <<TProd(<<KBH, x["T"], TExp(TDiv(a["dS"], RGas)),
                                         TExp(TNeg(TDiv(a["dH"], TMul(RGas, x["T"]))))>>)>>
-      [] c = "EyringAsRate" -> <<TProd(<<KBH, x["T"], TExp(TDiv(a["dS"], RGas)),
+      [] c = "EyringAsRate" -> <<TProd(<<a["pref"], x["T"],
                                          TExp(TNeg(TDiv(a["dH"], TMul(RGas, x["T"])))), ConcProd(k, x)>>)>>
       \* a parameter set constructed from the rate constant k0 known at T0: A = k0*exp(Ea/(R T0)),
       \* value at T; at T = T0 the construction must reproduce k0 itself
@@ -516,7 +520,7 @@ ChooseLaw(c, k, p) ==
     /\ (~UsesOrder(c) => k = 1)
     /\ (c \notin ExprClasses => p = "none")
     /\ (p \in {"keys-only", "dict"} => c \in FixedNargs)  \* Expr.fk / dict args need a class that names its arguments
-    /\ (c = "ArrheniusAsRate" => p \in {"none", "first"}) /\ (c = "EyringAsRate" => p = "none")
+    /\ (c \in {"ArrheniusAsRate", "EyringAsRate"} => p \in {"none", "first", "second", "all", "absent"})
     /\ cfg' = [cls |-> c, order |-> k, pattern |-> p] /\ stage' = "pset" /\ UNCHANGED <<part, stack, out>>
 
 ChooseParams(ps) ==
@@ -527,9 +531,20 @@ ChooseParams(ps) ==
     /\ cfg' = [cls |-> cfg.cls, order |-> cfg.order, pattern |-> cfg.pattern, pset |-> ps]
     /\ stage' = "temp" /\ UNCHANGED <<part, stack, out>>
 
-ChooseTemp(t) ==
-    /\ part = "laws" /\ stage = "temp"
-    /\ cfg' = [cls |-> cfg.cls, order |-> cfg.order, pattern |-> cfg.pattern, pset |-> cfg.pset, temp |-> t]
+(* PARAMETERS GIVEN AS EXPRESSIONS.  A parameter key of the variables mapping may itself hold an    *)
+(* expression (Expr.all_params evaluates it): the temperature as a programme RampedTemp(T0, dTdt) of *)
+(* the variable "time".  The caller may then change "time" between evaluations (step "update"); the  *)
+(* next evaluation must see the new temperature, and the mapping still holds the programme.          *)
+NestedTClasses == {"TPoly", "RTPoly", "ShiftedTPoly", "ShiftedRTPoly", "GibbsEqConst", "MassActionCallback",
+                   "EqCallback", "ExpWrap", "Log10Wrap"}
+RampRate == 2      \* K per unit time
+Time0 == 10
+Time1 == 25
+ChooseTemp(t, tf) ==
+    /\ part = "laws" /\ stage = "temp" /\ tf \in {"value", "expr"}
+    /\ (tf = "expr" => cfg.cls \in NestedTClasses /\ t[3] = 0)
+    /\ cfg' = [cls |-> cfg.cls, order |-> cfg.order, pattern |-> cfg.pattern, pset |-> cfg.pset, temp |-> t,
+               tform |-> tf, time |-> Time0]
     /\ stage' = "mode" /\ UNCHANGED <<part, stack, out>>
 
 Evaluate(m) ==
@@ -539,13 +554,15 @@ Evaluate(m) ==
     \* outside the bounds of a piecewise definition only the numeric backends refuse (ValueError)
     /\ (cfg.cls = "PiecewiseNum" => m \in {"math", "numpy"} \/
           LET a == [nm \in DOMAIN cfg.pset.v |-> TNum(cfg.pset.v[nm])] IN ~PiecewiseNumOut(a, [T |-> TNum(cfg.temp)]))
+    /\ (cfg.tform = "expr" => m \in {"math", "numpy", "sympy", "units"})
     /\ cfg' = [cls |-> cfg.cls, order |-> cfg.order, pattern |-> cfg.pattern, pset |-> cfg.pset,
-               temp |-> cfg.temp, mode |-> m]
+               temp |-> cfg.temp, tform |-> cfg.tform, time |-> cfg.time, mode |-> m]
     /\ stage' = "hist" /\ stack' = <<>> /\ UNCHANGED <<part, out>>
 
 GenLaw   == \E c \in LawClasses, k \in Orders, p \in Patterns : ChooseLaw(c, k, p)
 GenPset  == stage = "pset" /\ \E ps \in LawGrid[cfg.cls] : ChooseParams(ps)
-GenTemp  == stage = "temp" /\ \E t \in (IF UsesTemp(cfg.cls) THEN TempGrid ELSE {NumI(0)}) : ChooseTemp(t)
+GenTemp  == stage = "temp" /\ \E t \in (IF UsesTemp(cfg.cls) THEN TempGrid ELSE {NumI(0)}), tf \in {"value", "expr"} :
+                                   ChooseTemp(t, tf)
 GenMode  == \E m \in Modes : Evaluate(m)
 
 (* the arguments that take effect: an argument whose key is present is replaced by its         *)
@@ -558,9 +575,27 @@ EffArgs == [nm \in Range(LawArgs(cfg.cls, cfg.order)) |->
               LET i == CHOOSE j \in 1..LawN : ArgName(j) = nm
               IN  IF Overridden(i) THEN cfg.pset.alt[nm]
                   ELSE IF i > cfg.pset.ngiven THEN LawDefaults(cfg.cls)[nm] ELSE cfg.pset.v[nm]]
-EffTerms == [nm \in DOMAIN EffArgs |-> TNum(EffArgs[nm])]
+(* as_RateExpr(unique_keys): the keys name the arguments of the GENERATED expression - Arrhenius(A,   *)
+(* Ea_over_R), Eyring(kB/h*exp(dS/R), dH_over_R).  A present key replaces exactly that derived        *)
+(* argument (its override value is pset.alt of the parameter it is derived from), nothing else.       *)
+EffTerms ==
+    IF cfg.cls = "ArrheniusAsRate" THEN
+        [A |-> TNum(EffArgs["A"]),
+         Ea |-> IF Overridden(2) THEN TMul(TNum(cfg.pset.alt["Ea"]), RGas) ELSE TNum(cfg.pset.v["Ea"])]
+    ELSE IF cfg.cls = "EyringAsRate" THEN
+        [pref |-> IF Overridden(1) THEN TNum(cfg.pset.alt["dS"]) ELSE TMul(KBH, TExp(TDiv(TNum(cfg.pset.v["dS"]), RGas))),
+         dH |-> IF Overridden(2) THEN TMul(TNum(cfg.pset.alt["dH"]), RGas) ELSE TNum(cfg.pset.v["dH"])]
+    ELSE [nm \in DOMAIN EffArgs |-> TNum(EffArgs[nm])]
+KeyUnit(c, nm, k) == IF c = "ArrheniusAsRate" /\ nm = "Ea" THEN "K"
+                     ELSE IF c = "EyringAsRate" /\ nm = "dS" THEN "1/s/K"
+                     ELSE IF c = "EyringAsRate" /\ nm = "dH" THEN "K" ELSE UnitOf(c, nm, k)
 (* the variables mapping handed to every evaluation of the history (the caller's store) *)
-Store == [nm \in DOMAIN cfg.pset.env \cup {"T"} |-> IF nm = "T" THEN cfg.temp ELSE cfg.pset.env[nm]]
+(* cfg.temp is the temperature at Time0; under a programme it moves with cfg.time *)
+TempNow == IF cfg.tform = "expr"
+           THEN <<cfg.temp[1] + RampRate * (cfg.time - Time0) * cfg.temp[2], cfg.temp[2], 0>> ELSE cfg.temp
+RampT0 == <<cfg.temp[1] - RampRate * Time0 * cfg.temp[2], cfg.temp[2], 0>>
+Store == [nm \in DOMAIN cfg.pset.env \cup {"T"} \cup (IF cfg.tform = "expr" THEN {"time"} ELSE {}) |->
+            IF nm = "T" THEN TempNow ELSE IF nm = "time" /\ cfg.tform = "expr" THEN NumI(cfg.time) ELSE cfg.pset.env[nm]]
 NLanes == IF cfg.mode = "nparray" THEN Len(LaneFactors) ELSE 1
 LaneValue(nm, l) == IF cfg.mode = "nparray" /\ nm \in LaneVars THEN ScaleNum(Store[nm], LaneFactors[l]) ELSE Store[nm]
 VarTermsLane(l) == [nm \in DOMAIN Store |-> TNum(LaneValue(nm, l))]
@@ -582,25 +617,39 @@ Whos == [i \in 1..Len(stack) |-> stack[i].who]
 EvalStep(who) ==
     /\ part = "laws" /\ stage = "hist" /\ who \in StepKinds
     /\ (who \in {"rate", "companion"} => cfg.cls \in RateClasses)
+    /\ who # "update"
     /\ stack' = Append(stack, [who |-> who, store |-> Store,
                                lanes |-> [l \in 1..NLanes |-> StepTermsLane(who, l)]])
     /\ UNCHANGED <<part, stage, cfg, out>>
+(* the CALLER changes a variable of the mapping between two evaluations (the only way the store moves) *)
+UpdateStep ==
+    /\ part = "laws" /\ stage = "hist" /\ cfg.tform = "expr" /\ cfg.time = Time0
+    /\ cfg' = [cfg EXCEPT !.time = Time1]
+    /\ stack' = Append(stack, [who |-> "update", store |-> [Store EXCEPT !["time"] = NumI(Time1), !["T"] =
+                                   <<cfg.temp[1] + RampRate * (Time1 - Time0) * cfg.temp[2], cfg.temp[2], 0>>],
+                               lanes |-> <<>>])
+    /\ UNCHANGED <<part, stage, out>>
 FinishHist ==
     /\ part = "laws" /\ stage = "hist" /\ Len(stack) >= 1
     /\ stage' = "done" /\ UNCHANGED <<part, cfg, stack, out>>
 GenStep == \E who \in StepKinds :
               /\ stage = "hist"
-              /\ \E h \in HistoriesOf(cfg.cls, cfg.pattern) : IsPrefix(Append(Whos, who), h)
-              /\ EvalStep(who)
-GenFinishHist == stage = "hist" /\ Whos \in HistoriesOf(cfg.cls, cfg.pattern) /\ FinishHist
+              /\ \E h \in HistoriesOfForm(cfg.cls, cfg.pattern, cfg.tform) : IsPrefix(Append(Whos, who), h)
+              /\ (IF who = "update" THEN UpdateStep ELSE EvalStep(who))
+GenFinishHist == stage = "hist" /\ Whos \in HistoriesOfForm(cfg.cls, cfg.pattern, cfg.tform) /\ FinishHist
 
 (* every evaluation saw the store that was passed in, and evaluations of the same expression    *)
 (* are indistinguishable whatever happened before them                                           *)
 EvaluationIsPure ==
     (part = "laws" /\ stage \in {"hist", "done"}) =>
-        /\ \A i \in 1..Len(stack) : stack[i].store = Store
+        /\ (stack # <<>> => stack[Len(stack)].store = Store)
+        \* between two updates by the caller nothing moves: same store, same terms for the same expression
         /\ \A i, j \in 1..Len(stack) :
-              (stack[i].who = "companion") = (stack[j].who = "companion") => stack[i].lanes = stack[j].lanes
+              (i < j /\ \A m \in i..j : stack[m].who # "update") =>
+                 /\ stack[i].store = stack[j].store
+                 /\ ((stack[i].who = "companion") = (stack[j].who = "companion") => stack[i].lanes = stack[j].lanes)
+        \* an update is seen by the evaluation that follows it
+        /\ \A i \in 2..Len(stack) : stack[i].who = "update" => stack[i].store # stack[i - 1].store
 UsedBrackets(ts) == (UNION { TermVars(ts[i]) : i \in 1..Len(ts) }) \cap DOMAIN Brackets
 
 (* the law-level statement of "a named override replaces exactly that argument" *)
@@ -668,7 +717,11 @@ CaseRec ==
                    keys |-> LawKeys.u, present |-> [i \in 1..(IF LawKeys.u > 0 THEN LawKeys.u ELSE 0) |-> i \in LawKeys.present],
                    args_absent |-> PatternArgsAbsent(cfg.pattern), mode |-> cfg.mode,
                    argform |-> (IF cfg.pattern = "dict" THEN "dict" ELSE "list"), variants |-> FitVariants(cfg.cls),
-                   hist |-> Whos, lane_vars |-> (IF cfg.mode = "nparray" THEN LaneVars \cap DOMAIN Store ELSE {}),
+                   hist |-> Whos, tform |-> cfg.tform,
+                   ramp |-> [T0 |-> RampT0, dTdt |-> NumI(RampRate), time0 |-> NumI(Time0), time1 |-> NumI(Time1)],
+                   key_units |-> [nm \in Range(LawArgs(cfg.cls, cfg.order)) |->
+                                    (IF cfg.mode = "units-scaled" THEN AltUnit(KeyUnit(cfg.cls, nm, cfg.order))
+                                     ELSE [u |-> KeyUnit(cfg.cls, nm, cfg.order), f |-> <<1, 1>>])], lane_vars |-> (IF cfg.mode = "nparray" THEN LaneVars \cap DOMAIN Store ELSE {}),
                    lane_factors |-> [l \in 1..NLanes |-> LaneFactors[l]], companion_k |-> CompanionK,
                    units |-> [nm \in Range(LawArgs(cfg.cls, cfg.order)) \cup DOMAIN cfg.pset.env \cup {"T"} |->
                                 UnitGiven(cfg.cls, nm, cfg.order, cfg.mode).u],
@@ -683,7 +736,7 @@ CaseRec ==
                    \* per evaluation of the history and per array lane: the terms and, where rational, the value
                    steps |-> [i \in 1..Len(stack) |->
                                 [who |-> stack[i].who,
-                                 lanes |-> [l \in 1..NLanes |->
+                                 lanes |-> [l \in 1..Len(stack[i].lanes) |->
                                     LET lt == stack[i].lanes[l] IN
                                     [terms |-> lt,
                                      exact |-> [j \in 1..Len(lt) |->
